@@ -4,7 +4,7 @@
 #   tools/seedtest.sh <patch.diff> <check ids...>
 # Prints one line per check: <id> exit=<code>. The worktree is removed afterwards.
 set -u
-PATCH="$1"; shift
+PATCH="$(realpath "$1")"; shift
 NAME="swt-$$"
 WT="/tmp/$NAME"
 git -C /repo worktree add -q --detach "$WT" HEAD || exit 2
